@@ -568,8 +568,50 @@ def validation_part(chk, tier, rng):
                        logic="structural")
         if acc or not closed:
             chk.violation("validate:unknown-key:%s" % ".".join(path), "an unknown key inside %s is accepted" % ".".join(path), dict(config=cfg))
-    # shipped files validate; YAML and JSON spellings load identically
+    # spelling twins: for every documented field, values whose YAML spelling is delicate (numeric-looking / boolean-looking / null-looking
+    # strings, integral floats, booleans) are written as YAML and as JSON; both files must load to the same object -- the one that was
+    # written -- and be accepted or rejected alike, in agreement with validating the object in memory
     import yaml
+    tricky = ["16", "1e-5", "3.0", "nan", "true", "null", "~", "0x10", "1_000", "abc", 16, 16.0, 1e-5, True, None]
+    n_twin = 0
+    twin_bad = None
+    with tempfile.TemporaryDirectory(prefix="c16tw_") as tmp:
+        for path in list(DOC) + [("qha", "input"), ("elast", "input")]:
+            for tval in tricky:
+                cfg = base_config()
+                set_path(cfg, path, tval)
+                yf, jf = os.path.join(tmp, "s.yaml"), os.path.join(tmp, "s.json")
+                with open(yf, "w") as fp:
+                    yaml.safe_dump(cfg, fp)
+                with open(jf, "w") as fp:
+                    json.dump(cfg, fp)
+                outs = []
+                for fn_ in (yf, jf):
+                    try:
+                        outs.append(("ok", cfgmod.read_config(fn_, validate=False)))
+                    except Exception as e:
+                        outs.append(("raise", type(e).__name__))
+                acc_mem = real_accepts(val.validate_config, cfg)
+                accs = []
+                for fn_ in (yf, jf):
+                    try:
+                        cfgmod.read_config(fn_)
+                        accs.append(True)
+                    except Exception:
+                        accs.append(False)
+                n_twin += 1
+                if outs[0] != outs[1] or outs[0] != ("ok", cfg) or accs != [acc_mem, acc_mem]:
+                    if twin_bad is None:
+                        twin_bad = (path, tval, outs, accs, acc_mem)
+    chk.obligation("spelling twins: %d (field, delicate value) configurations written as YAML and as JSON load to the written object and validate "
+                   "alike" % n_twin, "unsat" if twin_bad is None else "sat", kind="configuration-twin", logic="concrete")
+    if twin_bad is not None:
+        path, tval, outs, accs, acc_mem = twin_bad
+        got = [o[1] if o[0] == "raise" else get_path(o[1], path) for o in outs]
+        chk.violation("spelling:yaml-vs-json", "%s = %r: the YAML spelling loads as %r (accepted: %s), the JSON spelling as %r (accepted: %s); "
+                      "validating the object in memory: %s" % (".".join(path), tval, got[0], accs[0], got[1], accs[1], acc_mem),
+                      dict(field=".".join(path), value=repr(tval)))
+    # shipped files validate; YAML and JSON spellings load identically
     shipped = [cij.data.get_data_fname("default/settings.yaml")] + [os.path.join(REPO, "examples", d, "settings.yaml") for d in ("akimotoite", "bridgmanite", "diopside")]
     for fn in shipped:
         try:
@@ -588,6 +630,15 @@ def validation_part(chk, tier, rng):
             chk.violation("shipped:%s" % os.path.basename(os.path.dirname(fn)), "shipped configuration %s does not validate / load identically: %s" % (fn, str(c1)[:100]), {})
     chk.note("%d solver witnesses replayed through the real validate_config" % n_rep)
     chk.validation_points += n_rep
+
+
+def get_path(cfg, path):
+    cur = cfg
+    for p_ in path:
+        if not isinstance(cur, dict) or p_ not in cur:
+            return "<missing>"
+        cur = cur[p_]
+    return cur
 
 
 def main():
